@@ -61,7 +61,10 @@ pub struct Runner {
     pub history: usize,
     pub line_no: usize,
     pub bsei_init_with_balances: bool,
-    pub saved: Option<(Chain, bool, bool)>,
+    pub saved: Option<(Chain, bool, bool, BTreeMap<Id, (Id, Id)>)>,
+    /// C10 ghost: (owner, nominee) per contract as the *history* of successful SetOwner /
+    /// AcceptOwnership calls determines them, independent of what the contract stores
+    pub ghost_roles: BTreeMap<Id, (Id, Id)>,
     /// E1 (magnitudes ≤ 10^18) has been left in this history
     pub e1_broken: bool,
     pub deep: bool,
@@ -81,6 +84,7 @@ impl Runner {
             line_no: 0,
             bsei_init_with_balances: false,
             saved: None,
+            ghost_roles: BTreeMap::new(),
             e1_broken: false,
             deep: std::env::var("KRP_DEEP").map(|v| v == "1").unwrap_or(false),
         }
@@ -98,20 +102,22 @@ impl Runner {
             self.envelope = true;
             self.genesis_done = false;
             self.inst.clear();
+            self.ghost_roles.clear();
             self.history += 1;
             self.bsei_init_with_balances = false;
             self.e1_broken = false;
             return "ok | reset".to_string();
         }
         if let Op::Save = op {
-            self.saved = Some((self.chain.clone(), self.envelope, self.bsei_init_with_balances));
+            self.saved = Some((self.chain.clone(), self.envelope, self.bsei_init_with_balances, self.ghost_roles.clone()));
             return "ok | save".to_string();
         }
         if let Op::Restore = op {
-            if let Some((c, e, b)) = self.saved.clone() {
+            if let Some((c, e, b, g)) = self.saved.clone() {
                 self.chain = c;
                 self.envelope = e;
                 self.bsei_init_with_balances = b;
+                self.ghost_roles = g;
             }
             return "ok | restore".to_string();
         }
@@ -144,6 +150,55 @@ impl Runner {
                     // cross-contract invariants are no longer meaningful for the rest of it
                     self.envelope = false;
                 }
+            }
+        }
+        // C10 ghost roles
+        if r.ok {
+            match op {
+                Op::Inst(i) => {
+                    let t = match i {
+                        Inst::Hub { .. } => Some(HUB),
+                        Inst::Reward { .. } => Some(REWARD),
+                        Inst::Disp { .. } => Some(DISP),
+                        Inst::Reg { .. } => Some(REG),
+                        _ => None,
+                    };
+                    if let Some(t) = t {
+                        if let Some(ro) = roles(&self.chain, t) {
+                            self.ghost_roles.insert(t, ro);
+                        }
+                    }
+                }
+                Op::Tx { sender, target, call, .. } => {
+                    let set = match call {
+                        Call::Hub(HubMsg::SetOwner(x)) | Call::Reward(RewMsg::SetOwner(x)) | Call::Disp(DispMsg::SetOwner(x)) | Call::Reg(RegMsg::SetOwner(x)) => Some(*x),
+                        _ => None,
+                    };
+                    let acc = matches!(call, Call::Hub(HubMsg::Accept) | Call::Reward(RewMsg::Accept) | Call::Disp(DispMsg::Accept) | Call::Reg(RegMsg::Accept));
+                    if set.is_some() || acc {
+                        if let Some(g) = self.ghost_roles.get_mut(target) {
+                            if let Some(x) = set {
+                                if g.0 != *sender {
+                                    self.violations.push((self.history, self.line_no, Violation { prop: "C10", class: format!("unauthorised-succeeded:{}", kind), detail: format!("SetOwner on {} by {} succeeded; the owner by history is {}", target, sender, g.0) }));
+                                }
+                                g.1 = x;
+                            }
+                            if acc {
+                                if g.1 != *sender {
+                                    self.violations.push((self.history, self.line_no, Violation { prop: "C10", class: format!("accept-by-non-nominee:{}", kind), detail: format!("AcceptOwnership on {} by {} succeeded; the last nomination was {}", target, sender, g.1) }));
+                                }
+                                g.0 = *sender;
+                            }
+                            let g2 = *g;
+                            if let Some(ro) = roles(&self.chain, *target) {
+                                if ro != g2 {
+                                    self.violations.push((self.history, self.line_no, Violation { prop: "C10", class: format!("ownership-state-diverged:{}", kind), detail: format!("contract {} stores (owner, nominee) = {:?}; the successful SetOwner / AcceptOwnership calls so far give {:?}", target, ro, g2) }));
+                                }
+                            }
+                        }
+                    }
+                }
+                _ => {}
             }
         }
         if let (Some(pre), Some(pre_chain)) = (pre, pre_chain) {
